@@ -429,6 +429,102 @@ theorem deliver_all (sinks : List Sink) (hn : sinks.Nodup) (x : Bytes × Hdrs) :
     obtain ⟨t, _, rfl⟩ := List.mem_map.mp he
     rfl
 
+/-! ### judge soundness: what a green verdict means for an ARBITRARY observation -/
+
+theorem lookupCI_coherent {o : Obs} (hc : o.coherent = true) {k : Bytes} {v : Option Val}
+    (hl : o.lookupCI k = some v) : ∀ q ∈ o.gets, lower q.1 = lower k → q.2 = v := by
+  unfold Obs.lookupCI at hl
+  cases hf : o.gets.find? (fun p => lower p.1 == lower k) with
+  | none => rw [hf] at hl; cases hl
+  | some q0 =>
+    rw [hf] at hl
+    simp only [Option.map_some, Option.some.injEq] at hl
+    have hq0 := List.mem_of_find?_eq_some hf
+    have hk0 : lower q0.1 = lower k := by simpa using List.find?_some hf
+    intro q hq hk
+    unfold Obs.coherent at hc
+    have := List.all_eq_true.mp (List.all_eq_true.mp hc q hq) q0 hq0
+    simp only [Bool.or_eq_true, bne_iff_ne, ne_eq, beq_iff_eq] at this
+    rcases this with h | h
+    · exact absurd (hk.trans hk0.symm) h
+    · rw [h, hl]
+
+/-- **`roundTripOk` is sound**: for ANY observation `o` (in particular the implementation's), a green
+    verdict means the declarative clauses — same start line; every probe spelling of a sent name other
+    than `location` reads the sent value; `location` reads the sent text when blank, otherwise the sent
+    text is under `_location_original`; the names are the sent ones (ignoring case) plus metadata /
+    private names, every sent name is there, no two names fold together; every probe spelling of
+    `_host`, `_port`, `_remote_addr` reads the source's. -/
+theorem roundTripOk_sound (mk : List Bytes) (sl : Bytes) (hs : List (Bytes × Bytes)) (src : Addr) (rl : Bytes) (o : Obs)
+    (h : roundTripOk mk sl hs src rl o = true) :
+    rl = sl
+    ∧ (∀ p ∈ hs, lower p.1 ≠ kLocation → ∀ q ∈ o.gets, lower q.1 = lower p.1 → q.2 = some (.str p.2))
+    ∧ (∀ p ∈ hs, lower p.1 = kLocation →
+        (allPyWs p.2 = true → ∀ q ∈ o.gets, lower q.1 = kLocation → q.2 = some (.str p.2))
+        ∧ (allPyWs p.2 = false → ∀ q ∈ o.gets, lower q.1 = kLocOrig → q.2 = some (.str p.2)))
+    ∧ (∀ n ∈ o.iter, lower n ∈ hs.map (fun p => lower p.1) ∨ lower n ∈ mk ∨ n.head? = some 95)
+    ∧ (∀ p ∈ hs, ∃ n ∈ o.iter, lower n = lower p.1)
+    ∧ (o.iter.map lower).Nodup
+    ∧ (∀ q ∈ o.gets, lower q.1 = kHost → q.2 = some (.str (hostString src)))
+    ∧ (∀ q ∈ o.gets, lower q.1 = kPort → q.2 = some (.int src.port))
+    ∧ (∀ q ∈ o.gets, lower q.1 = kRemote → q.2 = some (.addr src)) := by
+  unfold roundTripOk at h
+  simp only [Bool.and_eq_true, beq_iff_eq] at h
+  obtain ⟨⟨⟨⟨⟨⟨hrl, hcoh⟩, hvals⟩, hsub⟩, hsup⟩, hdis⟩, hmeta⟩ := h
+  have klow : lower kHost = kHost ∧ lower kPort = kPort ∧ lower kRemote = kRemote ∧ lower kLocOrig = kLocOrig := by decide
+  have hv := List.all_eq_true.mp hvals
+  refine ⟨hrl, ?_, ?_, ?_, ?_, distinctCI_spec hdis, ?_, ?_, ?_⟩
+  · intro p hp hl q hq hk
+    have := hv p hp
+    unfold valueOk at this
+    have hne : (lower p.1 == kLocation) = false := by simpa using hl
+    simp only [hne, Bool.false_eq_true, if_false, beq_iff_eq] at this
+    exact lookupCI_coherent hcoh this q hq hk
+  · intro p hp hl
+    have := hv p hp
+    unfold valueOk at this
+    simp only [hl, beq_self_eq_true, if_true] at this
+    constructor
+    · intro hw q hq hk
+      simp only [hw, if_true, beq_iff_eq] at this
+      exact lookupCI_coherent hcoh this q hq (by rw [hk, hl])
+    · intro hw q hq hk
+      simp only [hw, Bool.false_eq_true, if_false, Bool.and_eq_true, beq_iff_eq] at this
+      exact lookupCI_coherent hcoh this.1 q hq (by rw [hk, klow.2.2.2])
+  · intro n hn
+    have := List.all_eq_true.mp hsub n hn
+    simp only [Bool.or_eq_true, List.contains_eq_mem, decide_eq_true_eq, beq_iff_eq] at this
+    rcases this with (a | b) | c
+    · exact Or.inl a
+    · exact Or.inr (Or.inl b)
+    · exact Or.inr (Or.inr c)
+  · intro p hp
+    have := List.all_eq_true.mp hsup p hp
+    simp only [List.contains_eq_mem, decide_eq_true_eq] at this
+    obtain ⟨n, hn, e⟩ := List.mem_map.mp this
+    exact ⟨n, hn, e⟩
+  · unfold metaOk at hmeta
+    simp only [Bool.and_eq_true, beq_iff_eq] at hmeta
+    intro q hq hk
+    exact lookupCI_coherent hcoh hmeta.1.1.1 q hq (by rw [hk, klow.1])
+  · unfold metaOk at hmeta
+    simp only [Bool.and_eq_true, beq_iff_eq] at hmeta
+    intro q hq hk
+    exact lookupCI_coherent hcoh hmeta.1.1.2 q hq (by rw [hk, klow.2.1])
+  · unfold metaOk at hmeta
+    simp only [Bool.and_eq_true, beq_iff_eq] at hmeta
+    intro q hq hk
+    exact lookupCI_coherent hcoh hmeta.1.2 q hq (by rw [hk, klow.2.2.1])
+
+/-- `sameResult` is sound: a green verdict means equal start lines, equal iteration order, equal case
+    maps and equal items up to the value of the time stamp -/
+theorem sameResult_sound (rl₁ rl₂ : Bytes) (o₁ o₂ : Obs) (h : sameResult rl₁ o₁ rl₂ o₂ = true) :
+    rl₁ = rl₂ ∧ o₁.iter = o₂.iter ∧ o₁.cmap = o₂.cmap
+    ∧ o₁.data.map (fun p => (p.1, stripTs p.2)) = o₂.data.map (fun p => (p.1, stripTs p.2)) := by
+  unfold sameResult at h
+  simp only [Bool.and_eq_true, beq_iff_eq, Obs.noTs] at h
+  exact ⟨h.1.1.1, h.1.1.2, h.2, h.1.2⟩
+
 /-! ### decoding is independent of history -/
 
 /-- **`lru_cache` is transparent**: for every capacity, every pure function (failing or not) and
